@@ -1154,7 +1154,7 @@ def build_entries(H):
     def rawcatch(rng):
         """a catchment whose area is not delineated (one-step queries work on any flow-direction grid)"""
         return G.Catchment("raw", make_flowdir(H, rng, *gshape(), mode=fmode(rng)))
-    add("grid.delineate_river", lambda flowdir: G.delineate_river(flowdir, 0, **opt(dict(nval=60), {})),
+    add("grid.delineate_river", lambda flowdir: G.delineate_river(flowdir, 0, **({} if H.big else opt(dict(nval=60), dict(nval=5000)))),
         lambda rng: [Arg("flowdir", fdir(rng), "fixed")], "fixed")
     add("grid.accumulate", lambda flowdir, to_accumulate: G.accumulate(flowdir, to_accumulate, **opt(dict(nprint=10 ** 9), {})),
         lambda rng: [Arg("flowdir", fdir(rng), "fixed"), Arg("to_accumulate", fgrid(rng, rng.choice(gtypes)), "fixed")], "fixed")
@@ -1322,9 +1322,9 @@ def build_entries(H):
 
     def tr_set(trans, value):
         trans[trans.params.names[0]] = value
-        before = np.array(trans.params.values)
+        held = float(trans[trans.params.names[0]])
         trans.reset()
-        return before, np.array(trans.params.values)
+        return held, np.array(trans.params.values)
 
     def tr_set_args(rng):
         tr = tr_make(rng.choice(["Log", "BoxCox2", "YeoJohnson", "Sinh"]), rng)
